@@ -604,7 +604,7 @@ def _run(chk, wd, proved, only=None):
                     chk.dist('auth:' + tags[2].split(':')[0])
                     _judge(chk, user, stored, tags, raw, o, fam)
                     if not pipelined:
-                        _must_serve(chk, user, stored, tags, raw, o, fam)
+                        _must_serve(chk, user, stored, tags, raw, o, fam, plain)
                     if o['inner']:
                         served_status[o['status']] = served_status.get(o['status'], 0) + 1
                         _served_checks(chk, tags, raw, o, S)
@@ -1069,7 +1069,7 @@ MUST_SERVE = ('good', 'good:lowercase-scheme', 'good:uppercase-all', 'good:mixed
 MUST_401 = ('absent',)
 
 
-def _must_serve(chk, user, stored, tags, raw, o, fam):
+def _must_serve(chk, user, stored, tags, raw, o, fam, plain=None):
     """`Requests with the right credentials are served`: a request that was
     dispatched (its block parsed, match() did not raise) and whose Authorization
     header - under ANY capitalisation of the header name and of the scheme -
@@ -1084,6 +1084,10 @@ def _must_serve(chk, user, stored, tags, raw, o, fam):
     if tags[0] not in ('product', 'methods', 'random', 'segmented') or tags[2] not in MUST_SERVE:
         return
     if o['first_req'] is None or 'MRaise' in o['ms'] or 'MTrue' not in o['ms'] or ':' in user:
+        return
+    if plain is not None and not acceptable(user, stored, user, plain):
+        # configurations whose stored entry no password satisfies (a bare '{SHA}' prefix, an upper-case digest): the
+        # password the generator sends is not "the right credentials"; such requests are judged by _judge only
         return
     if not o['inner']:
         chk.violation({'kind': 'PROPERTY VIOLATED: a request with the right credentials was refused',
